@@ -457,6 +457,20 @@ def catalogue(rng, level=0, classes=None):
         lambda: linop.SingleAxisFiniteDifference((2, 3), input_dtype=C128, axis=1, append=0, jit=False), group="jit=False")
     add("CircularConvolve", dict(shape=(4,), h="[1.0, -0.5]", ndims=None, h_center=None, dtype="float64", jit=False),
         lambda: linop.CircularConvolve(snp.array(np.array([1.0, -0.5])), (4,), input_dtype=F64, jit=False), kind=APPROX, group="jit=False")
+    # automatic adjoint on the jit path (jit=True) for all field combinations, incl. real -> complex
+    Arc2 = rand_dyadic_np(rng, (2, 3), cplx=True)
+    add("LinearOperator(auto-adjoint)", dict(kind="real-to-complex", dtype="float64", A=repr(Arc2.tolist()), jit=True),
+        lambda Arc2=Arc2: linop.LinearOperator(input_shape=(3,), eval_fn=lambda x: snp.array(Arc2) @ x, input_dtype=F64, jit=True),
+        group="LinearOperator(auto-adjoint, jit)")
+    for dt in dts:
+        Aj = rand_dyadic_np(rng, (2, 3), cplx=is_complex(dt)).astype(dt)
+        add("LinearOperator(auto-adjoint)", dict(kind="matmul", dtype=np.dtype(dt).name, A=repr(Aj.tolist()), jit=True),
+            lambda Aj=Aj, dt=dt: linop.LinearOperator(input_shape=(3,), eval_fn=lambda x: snp.array(Aj) @ x, input_dtype=dt, jit=True),
+            group="LinearOperator(auto-adjoint, jit)")
+    # a real diagonal acting on a complex space (the derived operators must stay complex-linear on that space)
+    dre = rand_dyadic_np(rng, (3,))
+    add("Diagonal", dict(shape=(3,), dtype="complex128", diagonal=repr(dre.tolist()), real_diagonal=True),
+        lambda dre=dre: linop.Diagonal(snp.array(dre), input_dtype=C128), group="Diagonal(real diagonal, complex space)")
     # DFT with axes not in increasing order (incl. negative indices) paired with an axes_shape
     for (shp, axes, axshape, norm) in [((2, 3, 2), (2, 0), (3, 4), None), ((3, 2), (-1, 0), (4, 2), "forward"),
                                        ((2, 2, 3), (1, 0), (4, 1), "ortho"), ((3, 2, 2), (2, 1), None, None)]:
